@@ -412,6 +412,8 @@ func (desc *CounterStyleDescriptors) Validate() error {
 				return fmt.Errorf("counter style %s needs at least two additive symbols", system.System)
 			}
 		}
+	} else if desc.Symbols != nil || desc.AdditiveSymbols != nil {
+		return fmt.Errorf("counter style extending %s must not have symbols or additive symbols", system.System)
 	}
 	return nil
 }
